@@ -8,8 +8,9 @@ outstanding. `hintCtl ctl` is `ctl` with a ghost `Option Bool` in its state: `ha
 `handle_end_tag` to `some false`, every other callback keeps it. (Runs over `hintCtl ctl` are, under `Prod.fst`, the runs
 over `ctl`: Lemmas/CtlHom.lean.)
 
-* `PendS d` — a START-tag hint answered `lex` is outstanding: (`got_flags_from_hint` or `pending_element_aux_info_req`)
-  and the ghost is `some true`;
+* `PendS d` — a START-tag hint answered `lex` is outstanding: `pending_element_aux_info_req`, or `got_flags_from_hint`
+  and the ghost is `some true` (the aux request needs no ghost: only a start-tag hint raises it — and with this form
+  package scan's `PendLaw`, which quantifies over ALL sink states, holds);
 * `PendE d` — an END-tag hint answered `lex` is outstanding: `got_flags_from_hint` and the ghost is `some false`.
 Both are raised only by a hint of their kind answered `lex` (the other hint overwrites the ghost; a hint answered `scan`
 clears both dispatcher flags), lowered by every successful `handle_tag` (it clears both dispatcher flags), untouched by
@@ -45,7 +46,7 @@ def projD (d : Disp (γ × Option Bool)) : Disp γ :=
     nextEncoding := d.nextEncoding }
 
 /-- a start-tag hint answered `lex` is outstanding -/
-def PendS (d : Disp (γ × Option Bool)) : Bool := (d.gotFlagsFromHint || d.pendingAux) && d.ctl.2 == some true
+def PendS (d : Disp (γ × Option Bool)) : Bool := (d.gotFlagsFromHint && d.ctl.2 == some true) || d.pendingAux
 
 /-- an end-tag hint answered `lex` is outstanding -/
 def PendE (d : Disp (γ × Option Bool)) : Bool := d.gotFlagsFromHint && d.ctl.2 == some false
